@@ -328,3 +328,52 @@ def smallorder_pk_forgery(rng, pk_bytes, pure=True, max_tries=200):
         if ed_compress(_ed_mul(k % 8, A)) == ed_compress(_ed_mul(t, A)):
             return msg, Rb + s.to_bytes(32, "little")
     return None
+
+
+def poly_limb_corner_value(rng):
+    """an accumulator value whose limbs (44/44/42 or 5×26 radix, the two layouts software Poly1305 uses) sit on carry corners"""
+    if rng.random() < 0.75:
+        widths = (44, 44, 42)
+    else:
+        widths = (26, 26, 26, 26, 26)
+    v, off = 0, 0
+    corner = rng.randrange(len(widths))
+    for i, w in enumerate(widths):
+        mx = (1 << w) - 1
+        if i == corner or rng.random() < 0.3:
+            limb = rng.choice([0, 0, 1, rng.randrange(128), mx, mx - 1, mx - rng.randrange(128)])
+        else:
+            limb = rng.getrandbits(w)
+        v += limb << off
+        off += w
+    return v % P1305
+
+
+def poly_solve_full_block(r, h, W):
+    """a full 16-byte block m with (h + m + 2^128)·r ≡ W (mod p); None if that block value is not 16 bytes"""
+    if r == 0:
+        return None
+    c = (W * pow(r, -1, P1305) - h) % P1305
+    if not ((1 << 128) <= c < (1 << 129)):
+        return None
+    return (c - (1 << 128)).to_bytes(16, "little")
+
+
+def poly_corner_stream(rng, r, nblocks, prefix=b""):
+    """nblocks full blocks, each of which drives the accumulator onto a limb corner (so every block's carry chain, not
+    only the final reduction, meets all-zero / all-one limbs)"""
+    out = bytes(prefix)
+    h = poly1305_acc(r, out)
+    for _ in range(nblocks):
+        for _try in range(64):
+            W = poly_limb_corner_value(rng)
+            b = poly_solve_full_block(r, h, W)
+            if b is not None:
+                out += b
+                h = W
+                break
+        else:
+            b = bytes(rng.getrandbits(8) for _ in range(16))
+            out += b
+            h = poly1305_acc(r, out)
+    return out
